@@ -48,8 +48,12 @@ def generate(rng, tier, shard, nshards):
     for i in range(gens.budget(160, tier, nshards)):
         # every 4th case starts from a whole-number quaternion (identity, +-i, +-j, +-k: what a caller types as [1, 0, 0, 0]) with whole-number rates
         whole = i % 4 == 3
+        w_ = rng.integers(-9, 10, 3).astype(float) + (0 if i % 8 == 3 else 0.25) if whole else gens.axis(rng) * gens.logu(rng, 1e-2, 10.0)
+        if i % 4 == 1:              # rate vectors with an exact relation between their components (sum exactly 0, equal, opposite, single axis)
+            a_ = float(rng.choice([0.3, 0.5, 1.0, 2.0, 0.125])) * float(rng.choice([-1, 1]))
+            w_ = np.array([[a_, -a_, 0.0], [a_, -a_ / 2, -a_ / 2], [a_, a_, -2 * a_], [0.0, a_, -a_], [a_, a_, a_], [a_, 0.0, 0.0], [0.0, 0.0, a_], [a_, a_, 0.0]][int(rng.integers(8))])
         yield Case("step", "step", q0=gens.unit_quat(rng, "axis_aligned") if whole else gens.unit(rng),
-                   w=rng.integers(-9, 10, 3).astype(float) + (0 if i % 8 == 3 else 0.25) if whole else gens.axis(rng) * gens.logu(rng, 1e-2, 10.0),
+                   w=w_,
                    dt=gens.logu(rng, 1e-3, 5e-2), m=gens.vec3(rng, 1.0, 100.0))
     for i in range(gens.budget(80, tier, nshards)):
         N = int(rng.integers(20, 201))
